@@ -693,7 +693,17 @@ def strategies(ctx):
             y = (y + 1) % p
         return {'x': _h(x), 'y': _h(y), 'odd': bool(y & 1), 'enc': enc, 'src': 'xy_' + how}
 
+    def bad_nonres_root(x0, neg, enc):
+        # x has no point; y is what the square-root shortcut for p = 3 (mod 4) returns for a non-residue (its square is
+        # -(x^3 + 7)): a check that compares y with "the root" without squaring it takes the pair for a point
+        x = _off_curve_x(x0)
+        y = pow((pow(x, 3, p) + 7) % p, (p + 1) // 4, p)
+        if neg:
+            y = p - y
+        return {'x': _h(x), 'y': _h(y), 'odd': bool(y & 1), 'enc': enc, 'src': 'nonresidue_pseudo_root'}
+
     pub_bad = st.one_of(
+        st.builds(bad_nonres_root, xs, st.booleans(), st.sampled_from(['uncomp', 'tuple'])),
         st.builds(bad_nonres, xs, st.booleans()),
         st.builds(bad_nonres, xs, st.booleans()),
         st.builds(bad_ge_p, st.integers(0, (1 << 256) - 1 - p), st.booleans()),
